@@ -91,7 +91,7 @@ def _model(kind: str, opset: int) -> onnx.ModelProto:
 
 TABLE = [(k, o) for o in OPSETS for k in KINDS]
 MODELS = [_model(k, o).SerializeToString() for k, o in TABLE]
-TRANSFORMS = ["optimize", "convert18", "proto2python", "script", "convert21", "reused_fold_pass"]
+TRANSFORMS = ["optimize", "convert18", "proto2python", "script", "convert21", "reused_fold_pass", "reused_rule_set"]
 
 
 def _conv_models():
@@ -115,6 +115,31 @@ def _conv_models():
 
 
 CONV_MODELS = _conv_models()
+
+
+def _ruleset_models():
+    """models for ONE reused RewriteRuleSet holding an as_function rule Neg(Relu(x)) -> vp.fused::ReluNeg(x) and two stateful shipped
+    rules: 0..3 instances of the pattern, Flatten / Reshape(Reshape) instances with different shapes, and models without any"""
+    N = oh.make_node
+    out = [m for _, m in CONV_MODELS[:4]]
+
+    def mk(name, nodes, ins, outs, inits=()):
+        g = oh.make_graph(nodes, name, [oh.make_tensor_value_info(n, TP.FLOAT, sh) for n, sh in ins],
+                          [oh.make_tensor_value_info(n, TP.FLOAT, sh) for n, sh in outs], list(inits))
+        out.append(oh.make_model(g, opset_imports=[oh.make_opsetid("", 18)], ir_version=9).SerializeToString())
+    mk("two", [N("Relu", ["x"], ["a"]), N("Neg", ["a"], ["b"]), N("Relu", ["b"], ["c"]), N("Neg", ["c"], ["y"])], [("x", [2])], [("y", [2])])
+    mk("three", [N("Relu", ["x"], ["a"]), N("Neg", ["a"], ["b"]), N("Relu", ["b"], ["c"]), N("Neg", ["c"], ["d"]), N("Relu", ["d"], ["e"]),
+                 N("Neg", ["e"], ["y"])], [("x", [3])], [("y", [3])])
+    mk("flat23", [N("Flatten", ["x"], ["y"], axis=1)], [("x", [2, 3, 4])], [("y", [2, 12])])
+    mk("flat5", [N("Flatten", ["x"], ["y"], axis=2)], [("x", [5, 1, 2])], [("y", [5, 2])])
+    mk("rr", [N("Reshape", ["x", "s1"], ["t"]), N("Reshape", ["t", "s2"], ["y"])], [("x", [2, 6])], [("y", [3, 4])],
+       [nh.from_array(np.array([4, 3], dtype=np.int64), "s1"), nh.from_array(np.array([3, 4], dtype=np.int64), "s2")])
+    mk("rr0", [N("Reshape", ["x", "s1"], ["t"]), N("Reshape", ["t", "s2"], ["y"]), ], [("x", [2, 6])], [("y", [2, 6])],
+       [nh.from_array(np.array([12], dtype=np.int64), "s1"), nh.from_array(np.array([0, -1], dtype=np.int64), "s2")])
+    return out
+
+
+RULESET_MODELS = _ruleset_models()
 
 # script sources for the converter: the same small vocabulary of names (scale, k, t, c) occurs as a Python constant bound to a
 # local in some scripts and as a tensor parameter / intermediate in others; element types differ between scripts
@@ -144,7 +169,7 @@ _COUNTER = [0]
 
 
 def table(t: str):
-    return SCRIPT_SRCS if t == "script" else [m for _, m in CONV_MODELS] if t == "convert21" else MODELS
+    return SCRIPT_SRCS if t == "script" else [m for _, m in CONV_MODELS] if t == "convert21" else RULESET_MODELS if t == "reused_rule_set" else MODELS
 
 
 def transform(name: str, mb) -> bytes:
@@ -191,10 +216,24 @@ def transform(name: str, mb) -> bytes:
             _FOLD_PASS = cf_.FoldConstantsPass(shape_inference=False, input_size_limit=8192, output_size_limit=8192)
         res = _FOLD_PASS(ir_.from_proto(m))
         return (b"modified=%d;" % int(bool(res.modified))) + ir_.to_proto(res.model).SerializeToString(deterministic=True)
+    if name == "reused_rule_set":
+        # ONE RewriteRuleSet object for the whole process (rule sets are module-level singletons in the library itself): the
+        # result for a model must not depend on the models it rewrote before
+        import onnx_ir as ir_
+        global _RULE_SET
+        if _RULE_SET is None:
+            from onnxscript.rewriter import pattern as pt_
+            from onnxscript.rewriter.rules.common import flatten_to_reshape_rule, reshape_reshape_rule
+            fuse = pt_.RewriteRule(lambda op, x: op.Neg(op.Relu(x)), lambda op, x: op.ReluNeg(x, _domain="vp.fused"), as_function=True)
+            _RULE_SET = pt_.RewriteRuleSet([fuse, flatten_to_reshape_rule, reshape_reshape_rule])
+        mi = ir_.from_proto(m)
+        n = _RULE_SET.apply_to_model(mi)
+        return (b"applications=%d;" % int(n)) + ir_.to_proto(mi).SerializeToString(deterministic=True)
     raise ValueError(name)
 
 
 _FOLD_PASS = None
+_RULE_SET = None
 
 
 def _safe(name, mb):
@@ -336,11 +375,14 @@ def _ob(ti, hlen, first_opset=None, tiers=("quick", "thorough")):
                       "proto2python": ["onnxscript.backend.onnx_export:export2python"],
                       "script": ["onnxscript._internal.converter:Converter", "onnxscript._internal.main:script"],
                       "reused_fold_pass": ["onnxscript.optimizer._constant_folding:FoldConstantsPass.call"],
+                      "reused_rule_set": ["onnxscript.rewriter._rewrite_rule:RewriteRuleSet.apply_to_model", "onnxscript.rewriter._rewrite_rule:_get_new_overload"],
                       "convert21": ["onnxscript.version_converter:convert_version", "onnxscript.version_converter._version_converter:_VersionConverter"]}[TRANSFORMS[ti]],
         "bounds": (f"history of {hlen} script(s) and a target from a table of {n} script sources sharing a vocabulary of names (constants in "
                    "some, tensors in others), all symbolic; fresh-process baselines") if TRANSFORMS[ti] == "script" else
                   (f"history of {hlen} model(s) and a target from a table of {n} models at opsets 18..20 (plain and adapter-needing: GridSample, DFT, "
                    "GroupNormalization) converted to 21, all symbolic; fresh-process baselines") if TRANSFORMS[ti] == "convert21" else
+                  (f"history of {hlen} model(s) and a target from a table of {n} models (0..3 instances of an as_function rule, Flatten / "
+                   "Reshape(Reshape) instances of two stateful shipped rules) rewritten by ONE RewriteRuleSet object, all symbolic; fresh-process baselines") if TRANSFORMS[ti] == "reused_rule_set" else
                   (f"history of {hlen} model(s) and a target from a {n}-model table ({len(KINDS)} operator kinds x opsets {OPSETS}), all symbolic; "
                    "fresh-process baselines"),
         "stubs": [],
@@ -351,6 +393,7 @@ OBLIGATIONS = (
     [_ob(0, 1, fo) for fo in range(len(OPSETS))] + [_ob(1, 1), _ob(2, 1), _ob(3, 1), _ob(3, 2), _ob(4, 1), _ob(4, 2)]
     + [_ob(5, 1, fo) for fo in range(len(OPSETS))]
     + [_ob(0, 2, fo, tiers=("thorough",)) for fo in range(len(OPSETS))]
+    + [_ob(6, 1), _ob(6, 2, tiers=("thorough",))]
 )
 
 
